@@ -164,7 +164,17 @@ func (w *worker) run(prefix []int) (x *X) {
 		fmt.Fprintf(os.Stderr, "TRACE %8.3fs %v %s\n", time.Since(t0).Seconds(), x.choices, x.description())
 	}
 	if len(x.choices) < len(prefix) {
-		panic(fmt.Sprintf("HARNESS-ERROR replay divergence: execution made %d choices, prefix has %d", len(x.choices), len(prefix)))
+		if x.Failed() {
+			// the execution failed before it reached the end of the prefix, where
+			// an earlier execution with the same choices had not: the failure
+			// depends on something the explorer does not control (free-running
+			// goroutines of the async read mode, warm pools). It is a failing
+			// execution all the same: it is recorded with the choices it made and
+			// left to the 5x fresh-process replay to confirm or dismiss.
+			w.counters["divergent-failures"]++
+		} else {
+			panic(fmt.Sprintf("HARNESS-ERROR replay divergence: execution made %d choices, prefix has %d", len(x.choices), len(prefix)))
+		}
 	}
 	w.res.Executions++
 	w.res.Evals += 1 + x.evals
